@@ -57,7 +57,12 @@ class Ctx:
         self.disagreements = []
         self.notes = []
         self.exhaustive = False
+        self.deadline = None
         self.t0 = time.time()
+
+    def out_of_time(self):
+        """deep search only: stop when a failing input has been found or the time cap is reached"""
+        return self.deadline is not None and (bool(self.disagreements) or time.time() > self.deadline)
 
     def count(self, key, n=1):
         self.dist[key] = self.dist.get(key, 0) + n
@@ -246,11 +251,18 @@ def main():
             LEANCHECKER["ran"] = True
         ctx = Ctx(prop, tier if ok else "thorough", seed)   # a broken obligation triggers the deep search
         ctx.requested_tier = tier
+        # the deep search after a broken obligation in the quick tier is time-capped: it stops at the first failing input or after
+        # 6 minutes (the violation is then reported with `no-failing-input-found`)
+        ctx.deadline = (time.time() + 360) if (not ok and tier == "quick") else None
         try:
             if a.replay:
                 mod.replay(ctx, json.load(open(a.replay)))
             else:
                 mod.correspondence(ctx)
+                if not getattr(mod, "NO_STALE_STREAM", False):
+                    # query-then-move differential on this property's own operations (tools/stalelib.py)
+                    import stalelib
+                    stalelib.run(ctx, prop, [prop])
         except Exception as e:  # noqa: BLE001
             # an exception that escapes from the implementation (a frame inside /repo) is a finding about the
             # implementation, not an infrastructure problem
